@@ -593,9 +593,16 @@ impl Scenario for C25 {
         let entropy = if rng.bool() { EntropyPlan::Zero } else { EntropyPlan::Prng(rng.next_u64()) };
         // finite budgets only: random programs may loop
         let big: u64 = 30_000_000;
-        let reference = prog::run_once(&g.prog, &g.env, flags, big, &AllocCfg::unlimited(), &entropy, 60_000);
+        // 1/4: an atom-heavy host allocator
+        let junk = if rng.chance(1, 4) { 10 + rng.below(300) as u32 } else { 0 };
+        let base = AllocCfg {
+            junk_atoms: junk,
+            ..AllocCfg::unlimited()
+        };
+        let reference = prog::run_once(&g.prog, &g.env, flags, big, &base, &entropy, 60_000);
         let traj = trajectory(&reference);
-        let (fault, budget, alloc) = place_fault(rng, &traj);
+        let (fault, budget, mut alloc) = place_fault(rng, &traj);
+        alloc.junk_atoms = junk;
         Case25::Program {
             prog: g.prog.compact(),
             env: g.env,
